@@ -10,13 +10,20 @@ From LC.V2 Require Import Tok TokInv Normalize.
 
 (* in non-normalising mode every word is either the end-of-line token or
    space free, so splitting the normalised text at blanks recovers the words *)
-Theorem C11_raw_words_partial : ltac:(let t := type of (@doc_words_raw_mode) in exact t).
+Theorem C11_raw_words_partial :
+  forall (T : tables) (rs : list rune),
+         is_letter T 32%N = false ->
+         is_digit T 32%N = false ->
+         Forall (fun t : word * N => fst t = [10%N] \/ ~ In 32%N (fst t)) (d_toks (tokenize_runes T false rs)).
 Proof. exact (@doc_words_raw_mode). Qed.
-Check C11_raw_words_partial.
 Print Assumptions C11_raw_words_partial.
 
 (* token lines are non-decreasing, which is what the writer's prevLine logic assumes *)
-Theorem C11_lines_monotone_partial : ltac:(let t := type of (@doc_tok_sorted) in exact t).
+Theorem C11_lines_monotone_partial :
+  forall (T : tables) (n : bool) (rs : list rune) (i j : nat) (a b : word * N),
+         i <= j ->
+         nth_error (d_toks (tokenize_runes T n rs)) i = Some a ->
+         nth_error (d_toks (tokenize_runes T n rs)) j = Some b -> (snd a <= snd b)%N.
 Proof. exact (@doc_tok_sorted). Qed.
 Print Assumptions C11_lines_monotone_partial.
 
